@@ -161,7 +161,7 @@ def build_cases():
                     pk = list(L.POISON_KINDS)
                     picks.append((rng.randrange(n + 1), pk[(ci + si + ctx.seed) % len(pk)]))
                     if si == 0:  # one shape per inspection stage (columns, indexes, foreign keys) for every command
-                        for k in ("inspect-fails:type-size", "inspect-fails:index-lowercase-where", "inspect-fails:fk-ref-column"):
+                        for k in ("inspect-fails:type-size", "inspect-fails:index-where-no-space", "inspect-fails:fk-ref-column"):
                             if k != picks[-1][1]:
                                 picks.append((rng.randrange(n + 1), k))
                 else:
@@ -443,6 +443,9 @@ def run_case(c, verbose=False):
         else:
             ctx.count("non-failing-tx-shape:" + ("exit0" if rc == 0 else "exit!=0"))
         ctx.count("fail-kind:" + kind)
+        if kind in L.POISON_STAGE:
+            ctx.count("inspection-failure-%s:%s" % ("reached" if rc != 0 else "not-reached(exit0)", L.POISON_STAGE[kind]))
+            ctx.count("inspection-shape-%s:%s" % ("fails" if rc != 0 else "no-longer-fails", kind))
     if c.get("late"):
         ctx.count("late-failure:%s:%s" % (c["late"], "reached(exit!=0)" if rc != 0 else "not-reached(exit0)"))
         if rc != 0:
@@ -481,7 +484,8 @@ def main():
     ctx.par(cases, run_case)
     cnt = ctx.counters
     need = ["outcome:ok", "outcome:refused-not-clean", "outcome:statement-error", "dev-class:empty", "dev-class:nonempty", "late-failure-reached",
-            "empty-input-on-nonempty-dev:refused", "empty-input-on-nonempty-dev:stopped-before-dev(no-files)"]
+            "empty-input-on-nonempty-dev:refused", "empty-input-on-nonempty-dev:stopped-before-dev(no-files)",
+            "inspection-failure-reached:columns", "inspection-failure-reached:indexes", "inspection-failure-reached:fks"]
     missing = [k for k in need if not cnt.get(k)]
     reached, notreached = cnt.get("injected-failure:reached(exit!=0)", 0), cnt.get("injected-failure:not-reached(exit0)", 0)
     ctx.finish("dev file dumped by python sqlite3 + sha256 + source dir hashes around every CLI call: non-empty dev => refused "
